@@ -333,14 +333,16 @@ Proof.
 Qed.
 
 (* behaviours of the shipped modules make at most one call *)
-Lemma calls_bound e fwd live half k :
-  (length (calls_of (entry_beh e fwd live half k)) <= maxcalls k)%nat.
+Lemma calls_bound e fwd live prov half k :
+  (length (calls_of (entry_beh e fwd live prov half k)) <= maxcalls k)%nat.
 Proof.
   destruct k as [[c1 p1] [c2 p2]| | |]; simpl.
   - destruct fwd; simpl; lia.
   - destruct fwd; simpl; lia.
   - destruct fwd; [destruct (info_ok e), (listen_ok e) | destruct live]; simpl; lia.
-  - destruct fwd; [destruct (e_enable e), (member_ok e) | destruct half]; simpl; lia.
+  - destruct fwd;
+      [destruct (e_enable e), (new_ok e), (init_ok e), (fetch_ok e), (watch_ok e), (register_ok e), (keepalive_ok e)
+      | destruct prov, half, (delete_ok e)]; simpl; lia.
 Qed.
 
 Lemma cmax_in k ms : In k ms -> (maxcalls k <= cmax ms)%nat.
@@ -449,7 +451,7 @@ Section Run.
           -- repeat constructor.
       + destruct (in_range _ N P) as [R L]. rewrite R in H. inv H. simpl.
         set (k := nth (Z.to_nat (b_idx s)) (e_mods e) KWelcome).
-        set (bh := entry_beh e fwd (b_live s) (zmem (b_idx s) (b_half s)) k).
+        set (bh := entry_beh e fwd (b_live s) (zmem (b_idx s) (b_prov s)) (zmem (b_idx s) (b_half s)) k).
         split; [split; [exact N | apply no_do_tl, no_do_calls; exact W]|].
         split.
         * unfold phi. rewrite sumwt_calls. unfold slot at 1. rewrite head_do_calls. simpl andb. cbv iota.
@@ -875,7 +877,7 @@ Lemma burst_inv e g log r fwd idx0 idx wl g' evs :
   GInv e g' (log ++ evs) /\ Forall (tag_is r) evs /\ length (s_runs g') = length (s_runs g).
 Proof.
   intros R CK T O Hn N W F L H. unfold burst in H.
-  set (s0 := {| b_idx := idx; b_app := s_app g; b_cleaned := s_cleaned g; b_live := s_live g; b_half := s_half g; b_caps := s_caps g |}) in *.
+  set (s0 := {| b_idx := idx; b_app := s_app g; b_cleaned := s_cleaned g; b_live := s_live g; b_prov := s_prov g; b_half := s_half g; b_caps := s_caps g |}) in *.
   destruct (exec e r fwd (fuel_for e) s0 wl) as [s1 evs1] eqn:E. inv H. simpl.
   assert (G0 : Good e fwd s0 wl) by (split; assumption).
   destruct (exec_tagged e r fwd (fuel_for e) s0 wl s1 evs F G0 E) as [TG N1].
@@ -925,7 +927,7 @@ Proof. intro H. exact H. Qed.
 Lemma do_op_inv e g log o g' evs :
   GInv e g log -> do_op e g o = (g', evs) -> GInv e g' (log ++ evs).
 Proof.
-  intros G H. destruct o as [m|a en et|k| | |k b]; simpl in H;
+  intros G H. destruct o as [m|a en et|k|ft| | |k b]; simpl in H;
     try (inv H; rewrite app_nil_r; exact G).
   - destruct (is_app (e_mode e)).
     + destruct (s_app g =? 1); [|inv H; rewrite app_nil_r; exact G].
@@ -1114,7 +1116,7 @@ Lemma burst_app e g r fwd idx wl g' evs :
   (b2n (Z.eqb (s_app g') 3) <= b2n (Z.eqb (s_app g) 3) + (if fwd then n_fin_true (proj r evs) else 0))%nat.
 Proof.
   intros N W F H. unfold burst in H.
-  set (s0 := {| b_idx := idx; b_app := s_app g; b_cleaned := s_cleaned g; b_live := s_live g; b_half := s_half g; b_caps := s_caps g |}) in *.
+  set (s0 := {| b_idx := idx; b_app := s_app g; b_cleaned := s_cleaned g; b_live := s_live g; b_prov := s_prov g; b_half := s_half g; b_caps := s_caps g |}) in *.
   destruct (exec e r fwd (fuel_for e) s0 wl) as [s1 evs1] eqn:E. inv H. simpl.
   assert (G0 : Good e fwd s0 wl) by (split; assumption).
   destruct (exec_app e r fwd (fuel_for e) s0 wl s1 evs F G0 E) as [A B].
@@ -1167,7 +1169,7 @@ Lemma do_op_ainv e g log o g' evs :
   do_op e g o = (g', evs) -> AInv g' (log ++ evs).
 Proof.
   intros M G A0 H. pose proof A0 as (Ab & Ad & Ac).
-  destruct o as [m|a en et|k| | |k b]; simpl in H;
+  destruct o as [m|a en et|k|ft| | |k b]; simpl in H;
     try (inv H; rewrite app_nil_r; exact A0); rewrite ?M in H.
   - (* OStart *)
     destruct (Z.eqb_spec (s_app g) 1) as [E1|]; [|inv H; rewrite app_nil_r; exact A0].
@@ -1374,20 +1376,35 @@ Proof. destruct info, listen; reflexivity. Qed.
 Lemma actor_stop_once : reports_once (beh_of (actor_stop_prog true)) true.
 Proof. reflexivity. Qed.
 
-Lemma cluster_start_once enable new_ok member :
-  reports_once (beh_of (cluster_start_prog enable new_ok member)) (negb enable || (new_ok && member)).
-Proof. destruct enable, new_ok, member; reflexivity. Qed.
+(* what StartMember returns: an error exactly when one of its synchronous steps fails; the
+   outcomes of the two goroutines it starts do not enter *)
+Lemma start_member_spec init fetch watch register keepalive :
+  failed (start_member init fetch watch register keepalive) = negb (init && fetch && register) /\
+  (start_member init fetch watch register keepalive = Some MInit <-> init = false) /\
+  (start_member init fetch watch register keepalive = Some MFetch <-> init = true /\ fetch = false) /\
+  (start_member init fetch watch register keepalive = Some MRegister <-> init = true /\ fetch = true /\ register = false).
+Proof. destruct init, fetch, watch, register, keepalive; simpl; repeat split; intros; try tauto; try discriminate; intuition discriminate. Qed.
 
-Lemma cluster_stop_once : reports_once (beh_of (cluster_stop_prog false)) true.
-Proof. reflexivity. Qed.
+Lemma cluster_start_once enable new init fetch watch register keepalive :
+  reports_once (beh_of (cluster_start_prog enable new init fetch watch register keepalive))
+               (negb enable || (new && init && fetch && register)).
+Proof. destruct enable, new, init, fetch, watch, register, keepalive; reflexivity. Qed.
 
-Definition shipped (k : kind) : bool := match k with KScript _ _ => false | _ => true end.
+(* Stop: a provider exists (and is not half made) or not, the Delete works or not *)
+Lemma cluster_stop_once prov delete : reports_once (beh_of (cluster_stop_prog prov false delete)) true.
+Proof. destruct prov, delete; reflexivity. Qed.
 
-(* as plugged into the list machine, in every environment *)
-Lemma shipped_entry_once e fwd live half k :
+(* the asynchronous fault points are frame conditions: they change nothing *)
+Lemma cluster_async_frame enable new init fetch watch register keepalive watch' keepalive' :
+  beh_of (cluster_start_prog enable new init fetch watch register keepalive) =
+  beh_of (cluster_start_prog enable new init fetch watch' register keepalive').
+Proof. destruct enable, new, init, fetch, watch, register, keepalive, watch', keepalive'; reflexivity. Qed.
+
+(* as plugged into the list machine, in every environment (any set of declared faults) *)
+Lemma shipped_entry_once e fwd live prov half k :
   shipped k = true -> (k = KActor -> fwd = false -> live = true) ->
   (k = KCluster -> fwd = false -> half = false) ->
-  exists b, entry_beh e fwd live half k = Beh [b] false.
+  exists b, entry_beh e fwd live prov half k = Beh [b] false.
 Proof.
   intros S L Hh. destruct k as [st sp| | |]; try discriminate; simpl.
   - destruct fwd; eexists; reflexivity.
@@ -1395,8 +1412,9 @@ Proof.
     + destruct (info_ok e), (listen_ok e); eexists; reflexivity.
     + rewrite (L eq_refl eq_refl). eexists; reflexivity.
   - destruct fwd.
-    + destruct (e_enable e), (member_ok e); eexists; reflexivity.
-    + rewrite (Hh eq_refl eq_refl). eexists; reflexivity.
+    + destruct (e_enable e), (new_ok e), (init_ok e), (fetch_ok e), (watch_ok e), (register_ok e), (keepalive_ok e);
+        eexists; reflexivity.
+    + rewrite (Hh eq_refl eq_refl). destruct prov, (delete_ok e); eexists; reflexivity.
 Qed.
 
 (* ====================================================================================== *)
@@ -1443,11 +1461,459 @@ Lemma shipped_once :
   reports_once (beh_of welcome_stop_prog) true /\
   (forall info_ok listen_ok, reports_once (beh_of (actor_start_prog info_ok listen_ok)) (info_ok && listen_ok)) /\
   reports_once (beh_of (actor_stop_prog true)) true /\
-  (forall enable new_ok member_ok,
-     reports_once (beh_of (cluster_start_prog enable new_ok member_ok)) (negb enable || (new_ok && member_ok))) /\
-  reports_once (beh_of (cluster_stop_prog false)) true.
+  (forall enable new_ok init_ok fetch_ok watch_ok register_ok keepalive_ok,
+     reports_once (beh_of (cluster_start_prog enable new_ok init_ok fetch_ok watch_ok register_ok keepalive_ok))
+                  (negb enable || (new_ok && init_ok && fetch_ok && register_ok))) /\
+  (forall prov delete_ok, reports_once (beh_of (cluster_stop_prog prov false delete_ok)) true).
 Proof.
   split; [apply welcome_once|]. split; [apply welcome_once|].
   split; [exact actor_start_once|]. split; [exact actor_stop_once|].
   split; [exact cluster_start_once | exact cluster_stop_once].
 Qed.
+
+(* ====================================================================================== *)
+(* Part F - every call of a shipped module completes exactly once, on the whole log        *)
+(* ====================================================================================== *)
+
+(* next() calls of module i still on the work list *)
+Fixpoint cnt (i : Z) (wl : list act) : nat :=
+  match wl with
+  | [] => 0%nat
+  | ANx j _ :: wl' => ((if Z.eqb i j then 1 else 0) + cnt i wl')%nat
+  | _ :: wl' => cnt i wl'
+  end.
+
+Lemma cnt_app i l1 l2 : cnt i (l1 ++ l2) = (cnt i l1 + cnt i l2)%nat.
+Proof. induction l1 as [|a l IH]; simpl; [reflexivity|]. destruct a; simpl; rewrite IH; lia. Qed.
+Lemma cnt_tl i l : (cnt i (tl l) <= cnt i l)%nat.
+Proof. destruct l as [|a l]; simpl; [lia|]. destruct a; simpl; lia. Qed.
+Lemma cnt_calls_other i j cs : i <> j -> cnt i (map (ANx j) cs) = 0%nat.
+Proof. intro N. induction cs as [|c cs IH]; simpl; [reflexivity|]. destruct (Z.eqb_spec i j); [contradiction | exact IH]. Qed.
+Lemma cnt_unwind r i wl : forall wl' x, unwind r wl = (wl', x) -> (cnt i wl' <= cnt i wl)%nat.
+Proof.
+  induction wl as [|a wl IH]; intros wl' x H; simpl in H.
+  - inv H. simpl. lia.
+  - destruct a as [|j b|j p].
+    + specialize (IH _ _ H). simpl. lia.
+    + specialize (IH _ _ H). simpl. lia.
+    + inv H. simpl. lia.
+Qed.
+
+(* the environment state that [unclaimed] replays, after a log *)
+Fixpoint ustate (e : env) (dirs : list bool) (live : bool) (half : list Z) (log : list ev) : bool * list Z :=
+  match log with
+  | [] => (live, half)
+  | EEnter r i :: log' =>
+      match dir_at dirs r, kind_at e i with
+      | Some fwd, Some k => ustate e dirs (entry_live e fwd live k) (entry_half e fwd i half k) log'
+      | _, _ => ustate e dirs live half log'
+      end
+  | _ :: log' => ustate e dirs live half log'
+  end.
+
+Lemma ustate_app e dirs l1 : forall live half l2,
+  ustate e dirs live half (l1 ++ l2) =
+  ustate e dirs (fst (ustate e dirs live half l1)) (snd (ustate e dirs live half l1)) l2.
+Proof.
+  induction l1 as [|x l1 IH]; intros live half l2; simpl; [reflexivity|].
+  destruct x; try apply IH. destruct (dir_at dirs r), (kind_at e i); apply IH.
+Qed.
+
+Lemma unclaimed_app e dirs l1 : forall live half l2,
+  unclaimed e dirs live half (l1 ++ l2) =
+  unclaimed e dirs live half l1 ++
+  unclaimed e dirs (fst (ustate e dirs live half l1)) (snd (ustate e dirs live half l1)) l2.
+Proof.
+  induction l1 as [|x l1 IH]; intros live half l2; simpl; [reflexivity|].
+  destruct x; try apply IH.
+  destruct (dir_at dirs r), (kind_at e i); simpl; try (rewrite IH; reflexivity).
+  rewrite <- app_assoc. rewrite IH. reflexivity.
+Qed.
+
+Definition not_enter (x : ev) : Prop := match x with EEnter _ _ => False | _ => True end.
+
+Lemma ustate_quiet e dirs evs : Forall not_enter evs -> forall live half, ustate e dirs live half evs = (live, half).
+Proof. induction 1 as [|x l H F IH]; intros; simpl; [reflexivity|]. destruct x; simpl in H; try contradiction; apply IH. Qed.
+Lemma unclaimed_quiet e dirs evs : Forall not_enter evs -> forall live half, unclaimed e dirs live half evs = [].
+Proof. induction 1 as [|x l H F IH]; intros; simpl; [reflexivity|]. destruct x; simpl in H; try contradiction; apply IH. Qed.
+Lemma caps_of_app l1 l2 : caps_of (l1 ++ l2) = caps_of l1 ++ caps_of l2.
+Proof. unfold caps_of. apply flat_map_app. Qed.
+Lemma caps_of_quiet evs : Forall not_enter evs -> caps_of evs = [].
+Proof. induction 1 as [|x l H F IH]; simpl; [reflexivity|]. destruct x; simpl in H; try contradiction; exact IH. Qed.
+
+Lemma pair_mem_app r i l1 l2 : pair_mem r i (l1 ++ l2) = pair_mem r i l1 || pair_mem r i l2.
+Proof. unfold pair_mem. apply existsb_app. Qed.
+
+Lemma kind_at_nth e idx :
+  ((idx <? 0) || (nmods e <=? idx)) = false ->
+  kind_at e idx = Some (nth (Z.to_nat idx) (e_mods e) KWelcome).
+Proof.
+  unfold kind_at, nmods. intro H. destruct (Z.ltb_spec idx 0); [simpl in H; discriminate|].
+  simpl in H. apply nth_error_nth'. lia.
+Qed.
+
+Lemma shipped_calls e fwd live prov half k :
+  shipped k = true -> (length (calls_of (entry_beh e fwd live prov half k)) <= 1)%nat.
+Proof. intro S. pose proof (calls_bound e fwd live prov half k) as B. destruct k; simpl in *; try discriminate; exact B. Qed.
+
+Section Calls.
+  Variables (e : env) (df : list bool) (r0 i0 : Z) (k0 : kind).
+  Hypothesis Hk0 : kind_at e i0 = Some k0.
+  Hypothesis Hs0 : shipped k0 = true.
+
+  Definition un (log : list ev) : list (Z * Z) := unclaimed e df false [] log.
+  Definition nn (log : list ev) : nat := n_next i0 (proj r0 log).
+  Definition ne (log : list ev) : nat := n_enter i0 (proj r0 log).
+
+  Lemma nn_app l1 l2 : nn (l1 ++ l2) = (nn l1 + nn l2)%nat.
+  Proof. unfold nn. rewrite proj_app. apply n_next_app. Qed.
+  Lemma ne_app l1 l2 : ne (l1 ++ l2) = (ne l1 + ne l2)%nat.
+  Proof. unfold ne. rewrite proj_app. apply n_enter_app. Qed.
+
+  (* inside one burst of run r *)
+  Definition CI (F : nat) (r : Z) (s : bst) (wl : list act) (acc : list ev) : Prop :=
+    b_caps s = caps_of acc /\
+    ustate e df false [] acc = (b_live s, b_half s) /\
+    (forall i k, kind_at e i = Some k -> shipped k = true -> cnt i (tl wl) = 0%nat) /\
+    (pair_mem r0 i0 (un acc) = false ->
+     (nn acc + (if Z.eqb r r0 then cnt i0 wl else 0) = ne acc + F)%nat).
+
+  Lemma ci_quiet F r s a wl acc s' wl' evs :
+    CI F r s (a :: wl) acc ->
+    Forall not_enter evs -> b_caps s' = b_caps s -> b_live s' = b_live s -> b_half s' = b_half s ->
+    (forall i k, kind_at e i = Some k -> shipped k = true -> cnt i (tl wl') = 0%nat) ->
+    (nn evs + (if Z.eqb r r0 then cnt i0 wl' else 0) = (if Z.eqb r r0 then cnt i0 (a :: wl) else 0))%nat -> ne evs = 0%nat ->
+    CI F r s' wl' (acc ++ evs).
+  Proof.
+    intros (C1 & C2 & C3 & C4) Q E1 E2 E3 H3 HN HE.
+    split; [|split; [|split]].
+    - rewrite E1, C1, caps_of_app, (caps_of_quiet _ Q), app_nil_r. reflexivity.
+    - rewrite ustate_app, C2. simpl. rewrite (ustate_quiet _ _ _ Q), E2, E3. reflexivity.
+    - exact H3.
+    - unfold un. rewrite unclaimed_app, C2. simpl. rewrite (unclaimed_quiet _ _ _ Q), app_nil_r.
+      intro U. specialize (C4 U). rewrite nn_app, ne_app, HE. lia.
+  Qed.
+
+  Lemma step_ci F r fwd s a wl acc s' wl' evs :
+    dir_at df r = Some fwd ->
+    Good e fwd s (a :: wl) -> CI F r s (a :: wl) acc ->
+    step e r fwd a s wl = (s', wl', evs) -> CI F r s' wl' (acc ++ evs).
+  Proof.
+    intros HD [N W] HC H. pose proof HC as (C1 & C2 & C3 & C4). simpl tl in C3. unfold step in H.
+    destruct a as [|i b|i p].
+    - (* ADo *)
+      destruct (past_end e fwd (b_idx s)) eqn:P.
+      + destruct (finish_effect (e_mode e) fwd true (b_app s) (b_cleaned s)) as [[app cl] pan].
+        destruct pan.
+        * destruct (unwind r wl) as [wl1 x] eqn:U.
+          destruct (unwind_spec _ _ _ _ U) as (_ & _ & C). injection H as <- <- <-.
+          eapply ci_quiet; [exact HC | | reflexivity | reflexivity | reflexivity | | |].
+          -- repeat constructor. destruct C as [[j ->] | ->]; exact I.
+          -- intros j k Hk Hs. pose proof (cnt_tl j wl1). pose proof (cnt_unwind r j _ _ _ U).
+             specialize (C3 j k Hk Hs). lia.
+          -- pose proof (cnt_unwind r i0 _ _ _ U) as L. specialize (C3 i0 k0 Hk0 Hs0).
+             unfold nn, proj. simpl. destruct (r0 =? r); destruct C as [[j ->] | ->]; simpl;
+               destruct (r =? r0); simpl; try rewrite Z.eqb_refl; simpl;
+               try destruct (r0 =? r); simpl; lia.
+          -- unfold ne, proj. simpl. destruct C as [[j ->] | ->]; simpl; destruct (r0 =? r); reflexivity.
+        * inv H.
+          eapply ci_quiet; [exact HC | | reflexivity | reflexivity | reflexivity | | |].
+          -- repeat constructor.
+          -- intros j k Hk Hs. pose proof (cnt_tl j wl'). specialize (C3 j k Hk Hs). lia.
+          -- specialize (C3 i0 k0 Hk0 Hs0). unfold nn, proj. simpl. destruct (r0 =? r); simpl; destruct (r =? r0); lia.
+          -- unfold ne, proj. simpl. destruct (r0 =? r); reflexivity.
+      + destruct (in_range _ _ _ N P) as [R L]. rewrite R in H. inv H.
+        set (idx := b_idx s) in *.
+        set (k := nth (Z.to_nat idx) (e_mods e) KWelcome) in *.
+        set (bh := entry_beh e fwd (b_live s) (zmem idx (b_prov s)) (zmem idx (b_half s)) k) in *.
+        assert (HK : kind_at e idx = Some k) by (apply kind_at_nth; exact R).
+        assert (US : ustate e df false [] (acc ++ [EEnter r idx]) =
+                     (entry_live e fwd (b_live s) k, entry_half e fwd idx (b_half s) k)).
+        { rewrite ustate_app, C2. simpl. rewrite HD, HK. reflexivity. }
+        split; [|split; [|split]]; simpl b_caps; simpl b_live; simpl b_half.
+        * rewrite C1, caps_of_app. reflexivity.
+        * exact US.
+        * intros j kj Hk Hs.
+          destruct (Z.eq_dec j idx) as [->|NE].
+          -- assert (kj = k) by congruence. subst kj.
+             pose proof (shipped_calls e fwd (b_live s) (zmem idx (b_prov s)) (zmem idx (b_half s)) k Hs) as B.
+             fold bh in B. destruct (calls_of bh) as [|c [|c2 cs]]; simpl in *; try lia; apply (C3 idx k HK Hs).
+          -- pose proof (cnt_tl j (map (ANx idx) (calls_of bh) ++ AEnd idx (panics_of bh) :: wl)) as T.
+             rewrite cnt_app, (cnt_calls_other _ _ _ NE) in T. simpl in T. specialize (C3 j kj Hk Hs). lia.
+        * unfold un. rewrite unclaimed_app, C2. simpl. rewrite HD, HK. rewrite app_nil_r, pair_mem_app.
+          intro U. apply orb_false_iff in U. destruct U as [U1 U2]. specialize (C4 U1).
+          rewrite nn_app, ne_app. unfold nn at 2, ne at 2, proj. simpl. rewrite app_nil_r.
+          specialize (C3 i0 k0 Hk0 Hs0).
+          destruct (Z.eqb_spec r0 r) as [ER|NR].
+          -- assert (ER' : (r =? r0) = true) by (apply Z.eqb_eq; auto). rewrite ER' in *. simpl in C4. simpl. rewrite cnt_app. simpl.
+             destruct (Z.eqb_spec i0 idx) as [EI|NI].
+             ++ assert (k0 = k) by (rewrite EI in Hk0; congruence).
+                destruct (needs_missing fwd (b_live s) (b_half s) idx k) eqn:NM.
+                { simpl in U2. rewrite ER, EI, !Z.eqb_refl in U2. discriminate. }
+                assert (exists b, bh = Beh [b] false) as [b EB].
+                { apply shipped_entry_once; [congruence | |].
+                  - intros EK ->. rewrite EK in NM. simpl in NM. destruct (b_live s); [reflexivity | discriminate].
+                  - intros EK ->. rewrite EK in NM. simpl in NM. exact NM. }
+                rewrite EB. simpl. rewrite EI, Z.eqb_refl. rewrite EI in C3. rewrite EI in C4. lia.
+             ++ rewrite (cnt_calls_other _ _ _ NI). simpl. lia.
+          -- destruct (Z.eqb_spec r r0) as [X|_]; [congruence|]. simpl. lia.
+    - (* ANx *)
+      destruct b.
+      + inv H. simpl b_idx.
+        eapply ci_quiet; [exact HC | | reflexivity | reflexivity | reflexivity | | |].
+        * repeat constructor.
+        * exact C3.
+        * unfold nn, proj. simpl. destruct (Z.eqb_spec r0 r) as [ER|NR].
+          -- assert (ER' : (r =? r0) = true) by (apply Z.eqb_eq; auto). rewrite ER'. simpl. destruct (i0 =? i); simpl; lia.
+          -- destruct (Z.eqb_spec r r0); [congruence|]. simpl. lia.
+        * unfold ne, proj. simpl. destruct (r0 =? r); reflexivity.
+      + inv H.
+        eapply ci_quiet; [exact HC | | reflexivity | reflexivity | reflexivity | | |].
+        * repeat constructor.
+        * intros j k Hk Hs. pose proof (cnt_tl j wl'). specialize (C3 j k Hk Hs). lia.
+        * unfold nn, proj. simpl. destruct (Z.eqb_spec r0 r) as [ER|NR].
+          -- assert (ER' : (r =? r0) = true) by (apply Z.eqb_eq; auto). rewrite ER'. simpl. destruct (i0 =? i); simpl; lia.
+          -- destruct (Z.eqb_spec r r0); [congruence|]. simpl. lia.
+        * unfold ne, proj. simpl. destruct (r0 =? r); reflexivity.
+    - (* AEnd *)
+      inv H.
+      eapply ci_quiet; [exact HC | | reflexivity | reflexivity | reflexivity | | |].
+      + destruct p; repeat constructor.
+      + intros j k Hk Hs. pose proof (cnt_tl j wl'). specialize (C3 j k Hk Hs). lia.
+      + unfold nn, proj. destruct p; simpl; destruct (r =? r0); simpl; lia.
+      + unfold ne, proj. destruct p; reflexivity.
+  Qed.
+
+  Lemma exec_ci F r fwd f s wl acc s' evs :
+    dir_at df r = Some fwd ->
+    (phi e fwd (b_idx s) wl <= f)%nat -> Good e fwd s wl -> CI F r s wl acc ->
+    exec e r fwd f s wl = (s', evs) -> CI F r s' [] (acc ++ evs).
+  Proof.
+    intros HD Fu G C H.
+    refine (exec_preserves e r fwd (fun s wl acc => CI F r s wl acc) _ f s wl acc s' evs Fu G C H).
+    intros. eapply step_ci; eauto.
+  Qed.
+
+  (* between operations *)
+  Definition DirOK (g : st) : Prop :=
+    forall k fwd idx, nth_error (s_runs g) k = Some (fwd, idx) -> nth_error df k = Some fwd.
+
+  Definition CG (g : st) (log : list ev) (F : nat) : Prop :=
+    s_caps g = caps_of log /\
+    ustate e df false [] log = (s_live g, s_half g) /\
+    (pair_mem r0 i0 (un log) = false -> nn log = (ne log + F)%nat).
+
+  Lemma burst_cg g log F r fwd idx wl g' evs :
+    dir_at df r = Some fwd ->
+    near e fwd idx -> wl_ok wl -> (phi e fwd idx wl <= fuel_for e)%nat ->
+    (forall i k, kind_at e i = Some k -> shipped k = true -> cnt i (tl wl) = 0%nat) ->
+    CG g log F -> burst e g r fwd idx wl = (g', evs) ->
+    CG g' (log ++ evs) (F + (if Z.eqb r r0 then cnt i0 wl else 0)).
+  Proof.
+    intros HD N W Fu HO (C1 & C2 & C3) H. unfold burst in H.
+    set (s0 := {| b_idx := idx; b_app := s_app g; b_cleaned := s_cleaned g; b_live := s_live g; b_prov := s_prov g; b_half := s_half g; b_caps := s_caps g |}) in *.
+    destruct (exec e r fwd (fuel_for e) s0 wl) as [s1 evs1] eqn:E. inv H.
+    assert (G0 : Good e fwd s0 wl) by (split; assumption).
+    assert (I0 : CI (F + (if Z.eqb r r0 then cnt i0 wl else 0)) r s0 wl log).
+    { split; [exact C1|]. split; [exact C2|]. split; [exact HO|]. intro U. specialize (C3 U). lia. }
+    destruct (exec_ci _ r fwd (fuel_for e) s0 wl log s1 evs HD Fu G0 I0 E) as (D1 & D2 & _ & D4).
+    split; [exact D1|]. split; [exact D2|]. intro U. specialize (D4 U).
+    simpl in D4. destruct (r =? r0); lia.
+  Qed.
+
+  (* completions the environment delivers to (r0, i0) with one operation *)
+  Definition hit (caps : list (Z * Z)) (k : Z) : bool :=
+    if Z.ltb k 0 then false else
+    match nth_error caps (Z.to_nat k) with
+    | Some (r', i') => Z.eqb r0 r' && Z.eqb i0 i'
+    | None => false
+    end.
+  Definition fire1 (o : op) (evs : list ev) (caps : list (Z * Z)) : nat :=
+    match o, evs with
+    | OFire k _, _ :: _ => if hit caps k then 1%nat else 0%nat
+    | _, _ => 0%nat
+    end.
+
+  Lemma burst_dir g r fwd idx wl g' evs :
+    (Z.to_nat r < length (s_runs g))%nat -> burst e g r fwd idx wl = (g', evs) ->
+    exists idx', nth_error (s_runs g') (Z.to_nat r) = Some (fwd, idx').
+  Proof.
+    intros L H. unfold burst in H.
+    destruct (exec e r fwd (fuel_for e) _ wl) as [s1 evs1]. inv H. simpl.
+    eexists. apply nth_error_upd_same. exact L.
+  Qed.
+
+  Lemma new_run_cg g log F fwd g' evs :
+    DirOK g' -> CG g log F -> new_run e g fwd = (g', evs) -> CG g' (log ++ evs) F.
+  Proof.
+    intros D C H. unfold new_run in H.
+    set (g1 := {| s_runs := s_runs g ++ [(fwd, first_idx e fwd)]; s_caps := s_caps g; s_app := s_app g;
+                  s_cleaned := s_cleaned g; s_live := s_live g; s_prov := s_prov g; s_half := s_half g |}) in *.
+    set (r := Z.of_nat (length (s_runs g))) in *.
+    assert (L : (Z.to_nat r < length (s_runs g1))%nat).
+    { unfold r. rewrite Nat2Z.id. simpl. rewrite app_length. simpl. lia. }
+    destruct (burst_dir _ _ _ _ _ _ _ L H) as [idx' Hr].
+    assert (HD : dir_at df r = Some fwd).
+    { unfold dir_at. destruct (Z.ltb_spec r 0); [unfold r in *; lia|]. exact (D _ _ _ Hr). }
+    replace F with (F + (if Z.eqb r r0 then cnt i0 [ADo] else 0))%nat by (simpl; destruct (r =? r0); lia).
+    eapply (burst_cg g1); [exact HD | apply near_first | reflexivity | apply phi_start | | | exact H].
+    - intros; reflexivity.
+    - exact C.
+  Qed.
+
+  Lemma exec_fire_nonempty r fwd f s i b wl s' evs :
+    exec e r fwd (S f) s (ANx i b :: wl) = (s', evs) -> exists x l, evs = x :: l.
+  Proof.
+    simpl. destruct b.
+    - destruct (exec e r fwd f _ (ADo :: wl)) as [s2 e2]. intro H. inv H. eauto.
+    - destruct (exec e r fwd f s wl) as [s2 e2]. intro H. inv H. eauto.
+  Qed.
+
+  Lemma do_op_cg g log F o g' evs :
+    GInv e g log -> DirOK g' -> CG g log F -> do_op e g o = (g', evs) ->
+    CG g' (log ++ evs) (F + fire1 o evs (s_caps g)).
+  Proof.
+    intros G D C H.
+    assert (Triv : forall o', fire1 o' [] (s_caps g) = 0%nat) by (intros []; reflexivity).
+    destruct o as [m|a en et|k|ft| | |k b]; simpl in H;
+      try (inv H; rewrite app_nil_r, Triv, Nat.add_0_r; exact C).
+    - simpl fire1. rewrite Nat.add_0_r. destruct (is_app (e_mode e)).
+      + destruct (s_app g =? 1); [|inv H; rewrite app_nil_r; exact C].
+        eapply new_run_cg; [exact D | | exact H]. exact C.
+      + eapply new_run_cg; eauto.
+    - simpl fire1. rewrite Nat.add_0_r. destruct (is_app (e_mode e)).
+      + destruct (s_app g =? 3); [|inv H; rewrite app_nil_r; exact C].
+        eapply new_run_cg; [exact D | | exact H]. exact C.
+      + eapply new_run_cg; eauto.
+    - destruct (Z.ltb_spec k 0) as [KN|KP]; [inv H; rewrite app_nil_r, Triv, Nat.add_0_r; exact C|].
+      destruct (nth_error (s_caps g) (Z.to_nat k)) as [[r i]|] eqn:Hc; [|inv H; rewrite app_nil_r, Triv, Nat.add_0_r; exact C].
+      destruct (nth_error (s_runs g) (Z.to_nat r)) as [[fwd idx]|] eqn:Hr; [|inv H; rewrite app_nil_r, Triv, Nat.add_0_r; exact C].
+      destruct G as (CK & T & O). destruct (O _ _ _ Hr) as [N _].
+      assert (NN : 0 <= r).
+      { apply nth_error_In in Hc. unfold caps_ok in CK. rewrite Forall_forall in CK. apply (CK _ Hc). }
+      assert (L : (Z.to_nat r < length (s_runs g))%nat) by (apply nth_error_Some; congruence).
+      destruct (burst_dir _ _ _ _ _ _ _ L H) as [idx' Hr'].
+      assert (HD : dir_at df r = Some fwd).
+      { unfold dir_at. destruct (Z.ltb_spec r 0); [lia|]. exact (D _ _ _ Hr'). }
+      assert (NE : exists x l, evs = x :: l).
+      { unfold burst in H. destruct (exec e r fwd (fuel_for e) _ [ANx i b]) as [s1 evs1] eqn:E. inv H.
+        exact (exec_fire_nonempty r fwd (S (length (e_mods e) * weight e)) _ i b [] _ _ E). }
+      destruct NE as (x & l & ->).
+      assert (EQ : fire1 (OFire k b) (x :: l) (s_caps g) = (if Z.eqb r r0 then cnt i0 [ANx i b] else 0)%nat).
+      { simpl. unfold hit. destruct (Z.ltb_spec k 0); [lia|]. rewrite Hc. simpl.
+        rewrite (Z.eqb_sym r0 r). destruct (r =? r0); simpl; [destruct (i0 =? i); reflexivity | reflexivity]. }
+      rewrite EQ.
+      eapply burst_cg; [exact HD | exact N | reflexivity | apply phi_fire; exact N | | exact C | exact H].
+      intros; reflexivity.
+  Qed.
+
+  (* directions of existing runs never change *)
+  Lemma upd_dirs (l : list (bool * Z)) k fwd idx0 idx' :
+    nth_error l k = Some (fwd, idx0) ->
+    forall j f i, nth_error l j = Some (f, i) -> exists i', nth_error (upd_nth k (fwd, idx') l) j = Some (f, i').
+  Proof.
+    intros H j f i Hj. destruct (Nat.eq_dec k j) as [<-|NE].
+    - rewrite H in Hj. inv Hj. eexists. apply nth_error_upd_same. apply nth_error_Some. congruence.
+    - rewrite nth_error_upd_other by exact NE. eauto.
+  Qed.
+
+  Lemma burst_dirs g r fwd idx0 idx wl g' evs :
+    nth_error (s_runs g) (Z.to_nat r) = Some (fwd, idx0) -> burst e g r fwd idx wl = (g', evs) ->
+    forall j f i, nth_error (s_runs g) j = Some (f, i) -> exists i', nth_error (s_runs g') j = Some (f, i').
+  Proof.
+    intros Hr H. unfold burst in H.
+    destruct (exec e r fwd (fuel_for e) _ wl) as [s1 evs1]. inv H. simpl.
+    eapply upd_dirs. exact Hr.
+  Qed.
+
+  Lemma new_run_dirs g fwd g' evs :
+    new_run e g fwd = (g', evs) ->
+    forall j f i, nth_error (s_runs g) j = Some (f, i) -> exists i', nth_error (s_runs g') j = Some (f, i').
+  Proof.
+    intros H j f i Hj. unfold new_run in H.
+    eapply burst_dirs in H.
+    - exact H.
+    - simpl. rewrite Nat2Z.id, nth_error_app2 by lia. rewrite Nat.sub_diag. reflexivity.
+    - simpl. rewrite nth_error_app1; [exact Hj|]. apply nth_error_Some. congruence.
+  Qed.
+
+  Lemma do_op_dirs g o g' evs :
+    do_op e g o = (g', evs) ->
+    forall j f i, nth_error (s_runs g) j = Some (f, i) -> exists i', nth_error (s_runs g') j = Some (f, i').
+  Proof.
+    intros H j f i Hj.
+    destruct o as [m|a en et|k|ft| | |k b]; simpl in H; try (inv H; eauto; fail).
+    - destruct (is_app (e_mode e)).
+      + destruct (s_app g =? 1); [|inv H; eauto]. eapply (new_run_dirs (set_app g 2)); eauto.
+      + eapply new_run_dirs; eauto.
+    - destruct (is_app (e_mode e)).
+      + destruct (s_app g =? 3); [|inv H; eauto]. eapply (new_run_dirs (set_app g 4)); eauto.
+      + eapply new_run_dirs; eauto.
+    - destruct (k <? 0); [inv H; eauto|].
+      destruct (nth_error (s_caps g) (Z.to_nat k)) as [[r i']|]; [|inv H; eauto].
+      destruct (nth_error (s_runs g) (Z.to_nat r)) as [[fwd idx]|] eqn:Hr; [|inv H; eauto].
+      eapply burst_dirs; eauto.
+  Qed.
+
+  Lemma dirok_back g o g' evs : do_op e g o = (g', evs) -> DirOK g' -> DirOK g.
+  Proof.
+    intros H D k fwd idx Hk. destruct (do_op_dirs _ _ _ _ H _ _ _ Hk) as [i' Hk']. exact (D _ _ _ Hk').
+  Qed.
+
+  Lemma run_from_dirok : forall ops g g' xs, run_from e g ops = (g', xs) -> DirOK g' -> DirOK g.
+  Proof.
+    induction ops as [|o ops IH]; intros g g' xs H D; simpl in H.
+    - inv H. exact D.
+    - destruct (do_op e g o) as [g1 x] eqn:E1. destruct (run_from e g1 ops) as [g2 xs2] eqn:E2. inv H.
+      eapply dirok_back; [exact E1|]. eapply IH; eauto.
+  Qed.
+
+  Lemma fire_hits g o g' x cf :
+    do_op e g o = (g', x) -> (exists suf, cf = s_caps g ++ suf) ->
+    forall ops xs, fires_to (o :: ops) (x :: xs) cf r0 i0 = (fire1 o x (s_caps g) + fires_to ops xs cf r0 i0)%nat.
+  Proof.
+    intros H [suf ->] ops xs.
+    destruct o as [m|a en et|k|ft| | |k b]; try reflexivity.
+    destruct x as [|x0 x]; [reflexivity|].
+    simpl in H. simpl. unfold hit.
+    destruct (Z.ltb_spec k 0) as [KN|KP]; [inv H|].
+    destruct (nth_error (s_caps g) (Z.to_nat k)) as [[r i]|] eqn:Hc; [|inv H].
+    rewrite nth_error_app1 by (apply nth_error_Some; congruence). rewrite Hc.
+    destruct ((r0 =? r) && (i0 =? i)); reflexivity.
+  Qed.
+
+  Lemma run_from_cg : forall ops g log F g' xs,
+    GInv e g log -> DirOK g' -> CG g log F -> run_from e g ops = (g', xs) ->
+    forall suf, CG g' (log ++ concat xs) (F + fires_to ops xs (caps_of (log ++ concat xs) ++ suf) r0 i0).
+  Proof.
+    induction ops as [|o ops IH]; intros g log F g' xs G D C H suf; simpl in H.
+    - inv H. simpl. rewrite app_nil_r, Nat.add_0_r. exact C.
+    - destruct (do_op e g o) as [g1 x] eqn:E1. destruct (run_from e g1 ops) as [g2 xs2] eqn:E2. inv H.
+      assert (D1 : DirOK g1) by (eapply run_from_dirok; eauto).
+      pose proof (do_op_cg _ _ _ _ _ _ G D1 C E1) as C1.
+      pose proof (do_op_inv _ _ _ _ _ _ G E1) as G1.
+      specialize (IH _ _ _ _ _ G1 D C1 E2 suf).
+      simpl concat. rewrite app_assoc.
+      erewrite fire_hits; [|exact E1|].
+      + rewrite Nat.add_assoc. exact IH.
+      + destruct C as (Cc & _ & _). rewrite Cc, <- app_assoc, !caps_of_app, <- app_assoc. eauto.
+  Qed.
+End Calls.
+
+Lemma shipped_calls_once_model ops :
+  shipped_calls_once ops (run ops) (map fst (s_runs (final ops))).
+Proof.
+  intros r i fwd k _ Hk Hs U.
+  unfold call_once. unfold final, run in *.
+  destruct (run_from (env_of ops) (init (env_of ops)) ops) as [g xs] eqn:E. simpl in *.
+  assert (D : DirOK (map fst (s_runs g)) g).
+  { intros j f idx Hj. rewrite nth_error_map, Hj. reflexivity. }
+  assert (C0 : CG (env_of ops) (map fst (s_runs g)) r i (init (env_of ops)) [] 0).
+  { split; [reflexivity|]. split; [reflexivity|]. intros _. reflexivity. }
+  pose proof (run_from_cg (env_of ops) (map fst (s_runs g)) r i k Hk Hs ops (init (env_of ops)) [] 0%nat g xs
+                          (ginv_init _) D C0 E []) as (_ & _ & C).
+  simpl in C. rewrite app_nil_r in C. exact (C U).
+Qed.
+
+Lemma call_once_b_iff ops obs r i : call_once_b ops obs r i = true <-> call_once ops obs r i.
+Proof. unfold call_once_b, call_once. apply Nat.eqb_eq. Qed.
